@@ -541,8 +541,11 @@ class StandardDecodeMixin(object):
         # Validate tag
         tag_data = data[start_offset:offset]
         if tag_data != self.tag:
-            # Check for missing data
-            if len(tag_data) != self.tag_len:
+            # Check for missing data. Fewer octets than this tag has is
+            # only missing data if they are the beginning of this tag,
+            # otherwise another (shorter) tag is present.
+            if (len(tag_data) != self.tag_len
+                    and self.tag[:len(tag_data)] == tag_data):
                 raise OutOfByteDataError('Ran out of data when reading tag',
                                          offset=start_offset)
             # return TAG_MISMATCH Instead of raising DecodeTagError for better performance so that MembersType does
@@ -625,7 +628,8 @@ class PrimitiveOrConstructedType(Type):
             is_primitive = True
         elif tag == self.constructed_tag:
             is_primitive = False
-        elif len(tag) != self.tag_len:
+        elif (len(tag) != self.tag_len
+              and tag in [self.tag[:len(tag)], self.constructed_tag[:len(tag)]]):
             # Detect out of data
             raise OutOfByteDataError('Ran out of data when reading tag',
                                      offset=start_offset)
